@@ -219,6 +219,32 @@ func (r *exactSizeReader) Read(buf []byte) (int, error) {
 	return 0, err
 }
 
+// checkUploadIDRepo checks that an upload ID isn't for another
+// repository than the one that the caller is resuming an upload in.
+// The ID is an upload location, which is opaque in general, but when it
+// has the usual shape (/v2/<name>/blobs/uploads/<id>) it says which
+// repository the upload belongs to: following it regardless would
+// mean acting on a repository that the caller didn't name (and that
+// wrappers such as ocifilter.Sub or ocifilter.Select haven't checked).
+func checkUploadIDRepo(id, repo string) error {
+	u, err := url.Parse(id)
+	if err != nil {
+		return nil // Invalid IDs are dealt with by the caller.
+	}
+	rest, ok := strings.CutPrefix(u.Path, "/v2/")
+	if !ok {
+		return nil
+	}
+	i := strings.LastIndex(rest, "/blobs/uploads/")
+	if i < 0 {
+		return nil
+	}
+	if name := rest[:i]; name != repo {
+		return fmt.Errorf("upload ID is for repository %q, not %q", name, repo)
+	}
+	return nil
+}
+
 // TODO is this a reasonable default? We have to
 // weigh up in-memory cost vs round-trip overhead.
 // TODO: make this default configurable.
@@ -258,6 +284,9 @@ func (c *client) PushBlobChunked(ctx context.Context, repo string, chunkSize int
 func (c *client) PushBlobChunkedResume(ctx context.Context, repo string, id string, offset int64, chunkSize int) (ociregistry.BlobWriter, error) {
 	if id == "" {
 		return nil, fmt.Errorf("id must be non-empty to resume a chunked upload")
+	}
+	if err := checkUploadIDRepo(id, repo); err != nil {
+		return nil, err
 	}
 	if chunkSize <= 0 {
 		chunkSize = defaultChunkSize
